@@ -642,7 +642,11 @@ func expandLeaves(v ssa.Value, blk *ssa.BasicBlock, ret *ssa.Return, seen map[ss
 					seen[x] = true
 					for _, s := range sts {
 						n := len(*out)
-						expandLeaves(s.Val, s.Block(), ret, seen, out)
+						at := s.Block()
+						if at.Dominates(blk) {
+							at = blk // the load's block knows at least as much
+						}
+						expandLeaves(s.Val, at, ret, seen, out)
 						for i := n; i < len(*out); i++ {
 							if !(*out)[i].Pos.IsValid() {
 								(*out)[i].Pos = s.Pos()
